@@ -60,7 +60,12 @@ pub fn run(ctx: &Ctx, property: &'static str) -> Outcome {
     }
     let real = crate::reallayer::run_layer(property, &rspecs, deep, ctx.tier.pick(0, 1));
     // ---- model layer (E2); C02 is decided on real code alone
-    let model = if property == "C02" { None } else { Some(crate::pda::run_model_layer(ctx, property, &model_specs(ctx.tier), ctx.tier.pick(400.0, 3000.0))) };
+    let mut mspecs = model_specs(ctx.tier);
+    if property != "C01" {
+        // the cyclic scope only serves C01's known finding (termination)
+        mspecs.retain(|s| !matches!(s, Spec::G(sc) if sc.only_cyclic));
+    }
+    let model = if property == "C02" { None } else { Some(crate::pda::run_model_layer(ctx, property, &mspecs, ctx.tier.pick(400.0, 3000.0))) };
     let mut notes: Vec<String> = vec![];
     for e in real.acc.self_check_errors.iter().chain(model.iter().flat_map(|m| m.acc.self_check_errors.iter())) {
         if e.starts_with("reference self-check") || e.starts_with("missing real observation") {
